@@ -15,9 +15,10 @@ RULE = ("combine tasks over 1-5 dependencies of every kind (run_command / run_ex
 def gen_case(rng):
     pk = rng.choice([[""], ["", "a"], ["a/b/c", "a", ""], ["x", "y/z", "y"]])
     ndep = rng.randint(1, 5)
+    all_exp = rng.random() < 0.3  # every dependency cacheable: only a changed version distinguishes runs
     tasks, scripts = [], {}
     for i in range(ndep):
-        kind = rng.choice(["run_command", "run_experiment", "run_experiment", "group", "combine"])
+        kind = rng.choice(["run_command", "run_experiment", "run_experiment", "group", "combine"]) if not all_exp else "run_experiment"
         pkg = rng.choice(pk)
         name = "d%d" % i
         sub = []
@@ -48,6 +49,9 @@ def gen_case(rng):
             hist.append({"target": rng.choice(ids), "again": True, "jobs": None})
         else:
             hist.append({"target": comb["id"], "again": rng.random() < 0.5, "jobs": None})
+    if all_exp:
+        # re-run ONE dependency alone, then ask for the combine again without --again
+        hist = [{"target": "//:top", "again": False, "jobs": None}, {"target": rng.choice(deps), "again": True, "jobs": None}, {"target": rng.choice([comb["id"], "//:top"]), "again": False, "jobs": None}]
     if hist[-1]["target"] not in ("//:top", comb["id"]):
         hist.append({"target": comb["id"], "again": False, "jobs": None})
     conflict = None
@@ -109,8 +113,10 @@ def eval_case(case):
                 out["inconclusive"].append({"why": "cond run timed out (watchdog)", "detail": cli.brief(r)})
                 break
             starts = {e["task"]: e for e in evs if e["kind"] == "start"}
-            comb_ran = ("Running %s..." % comb["id"]) in r.out
-            if not comb_ran:
+            # combine() is not a cacheable task type: whenever the invocation's target is the combine task
+            # (or the group above it) the combine step is due, whether or not Conductor chose to run it
+            comb_due = inv["target"] in ("//:top", comb["id"])
+            if not comb_due:
                 continue
 
             def expected(d):
